@@ -12,7 +12,7 @@ system: one target thread, any number of concurrent `kill()` callers) and of
                                               tFinish         (pc 4 -> 5, not alive any more)
     kill:  self._killed.set()                 kSet            (k 0 -> 1)
            if not self.is_alive(): return     kAlive          (k 1 -> 2 | done)
-           if not _is_thread_proc_running()   kTry            (k 2 -> 3 | done)   try-acquire + release
+           if not _is_thread_proc_running()   kTry            (k 2 -> 3 | done)   reads lock.locked() (after the fix)
            async_raise: if not is_alive: ret  kRaiseCheck     (k 3 -> 4 | done)
                         SetAsyncExc           kRaise          (k 4 -> done; exception becomes pending)
     a pending asynchronous exception is raised in the target at its next step (`tDeliver`).
@@ -48,7 +48,8 @@ def updK (ks : Nat → K) (i : Nat) (k : K) : Nat → K := fun j => if j = i the
 
 def alive (t : T) : Bool := decide (1 ≤ t.pc) && decide (t.pc < 5)
 
-/-- the running lock is held by the target exactly while pc ∈ {2, 3} (the try-acquire of a killer is atomic) -/
+/-- the running lock is held by the target exactly while pc ∈ {2, 3}; a killer only reads it (`locked()`), see
+    `ProbeS` below for the try-acquire probe the code used before -/
 def lockHeld (t : T) : Bool := decide (t.pc = 2) || decide (t.pc = 3)
 
 def step (s : S) : Act → Option S
